@@ -4,6 +4,7 @@ package main
 
 import (
 	"fmt"
+	"go/token"
 	"strings"
 
 	"golang.org/x/tools/go/ssa"
@@ -13,6 +14,7 @@ func init() {
 	register("C15", runC15, `Structural clauses of robust partition-table reading, decided statically over the functions reachable from partition.Read (packages partition, gpt, mbr).
 C15-a every table returned lists only partitions decoded from CRC-valid data: the CRC equality edges dominate every success return of the functions that compute a CRC, the checksummed buffer is the decoded one and the header CRC range covers the decoded header bytes (same rules as C09-f).
 C15-b every device-derived value (decoded by encoding/binary or loaded from a byte buffer, propagated through arithmetic, fields and calls) that reaches a make length, a divisor, a slice bound, an index, or the step of a slice-shrinking loop is guarded: a dominating comparison bounds it on the edge taken, all its device-derived operands are guarded, it is loaded from a field validated where it is stored, or its type and constant operands bound it below 2^24 (16 MiB).
+C15-c a loop whose every exit depends on a device read it contains cannot return to that read after a non-nil error (io.EOF included) without having received bytes (no retry-forever on a short device).
 Untainted bounds cannot depend on the device contents and are exercised by the valid-image tests. Does not decide termination or absence of panics in general.`)
 }
 
@@ -38,6 +40,11 @@ func runC15(w *World, r *Report) {
 	fns := partitionReaderScope(w)
 	b := newBounds(w, fns, false)
 	boundsReport(w, r, b, "C15-b", map[string]bool{"make": true, "divide": true, "slice": true, "index": true, "step": true})
+	nloops := readLoopsProgress(w, r, "C15-c", fns)
+	r.Extra["read_loops_examined"] = nloops
+	if nloops == 0 {
+		r.Ok("C15-c", "partition readers", "no loop whose only exits depend on a device read", "partition", fmt.Sprintf("%d functions", len(fns)))
+	}
 	r.Extra["functions_in_scope"] = len(fns)
 	r.Extra["tainted_values"] = len(b.tv)
 	var tf []string
@@ -78,4 +85,192 @@ func boundsReport(w *World, r *Report, b *boundsAn, rule string, kinds map[strin
 		}[s.kind]
 		r.Check(ok, rule, fnName(s.fn), cons, w.relFile(instrPos(s.ins)), s.describe(b), what+" — "+s.describe(b))
 	}
+}
+
+// readLoopsProgress (C15-c / C18-d): a loop whose every exit depends on the results of a device read it contains
+// (typically "until the buffer is full") must not be able to come back to that read after an error without having
+// received bytes: a device shorter than a corrupted field claims answers (0, io.EOF) forever.
+// Loops that also have an exit independent of the read (a counter, a list length) are bounded otherwise and pass.
+func readLoopsProgress(w *World, r *Report, rule string, fns []*ssa.Function) int {
+	n := 0
+	for _, fn := range fns {
+		if fn.Blocks == nil {
+			continue
+		}
+		for _, cc := range calls(fn, false, func(c ssa.CallInstruction) bool {
+			return isReadAt(c) || methodCallSig(c, "Read", 1, 2) || isStdCall(c, "io.ReadFull") || isStdCall(c, "io.ReadAtLeast")
+		}) {
+			c, ok := cc.(*ssa.Call)
+			if !ok {
+				continue
+			}
+			start := c.Block()
+			// the loop: blocks reachable from start that reach start
+			fwd := map[*ssa.BasicBlock]bool{}
+			var st []*ssa.BasicBlock
+			for _, s := range start.Succs {
+				st = append(st, s)
+			}
+			for len(st) > 0 {
+				b := st[len(st)-1]
+				st = st[:len(st)-1]
+				if fwd[b] {
+					continue
+				}
+				fwd[b] = true
+				st = append(st, b.Succs...)
+			}
+			if !fwd[start] {
+				continue // not in a loop
+			}
+			bwd := map[*ssa.BasicBlock]bool{}
+			st = append(st[:0], start.Preds...)
+			for len(st) > 0 {
+				b := st[len(st)-1]
+				st = st[:len(st)-1]
+				if bwd[b] {
+					continue
+				}
+				bwd[b] = true
+				st = append(st, b.Preds...)
+			}
+			loop := map[*ssa.BasicBlock]bool{start: true}
+			for b := range fwd {
+				if bwd[b] {
+					loop[b] = true
+				}
+			}
+			dependsOnRead := func(v ssa.Value) bool {
+				for _, rt := range w.prov(v, provOpts{throughExternal: true}).Roots {
+					if rt.Kind == RCall && rt.Call == ssa.CallInstruction(c) {
+						return true
+					}
+				}
+				return false
+			}
+			independentExit := false
+			exits := 0
+			for b := range loop {
+				iff, ok := lastInstr(b).(*ssa.If)
+				if !ok {
+					continue
+				}
+				if loop[b.Succs[0]] && loop[b.Succs[1]] {
+					continue
+				}
+				exits++
+				if !dependsOnRead(iff.Cond) {
+					independentExit = true
+				}
+			}
+			if independentExit || exits == 0 {
+				continue
+			}
+			n++
+			var cnt, errv ssa.Value
+			for _, u := range *c.Referrers() {
+				if ex, ok := u.(*ssa.Extract); ok {
+					if ex.Index == 0 {
+						cnt = ex
+					} else {
+						errv = ex
+					}
+				}
+			}
+			// edges that imply the count is > 0
+			progress := func(b *ssa.BasicBlock, idx int) bool {
+				iff, ok := lastInstr(b).(*ssa.If)
+				if !ok || cnt == nil {
+					return false
+				}
+				cond, tIdx := boolCondEdge(iff)
+				bin, ok := cond.(*ssa.BinOp)
+				if !ok {
+					return false
+				}
+				x, y, op := stripConv(bin.X), stripConv(bin.Y), bin.Op
+				if y == cnt && x != cnt {
+					x, y = y, x
+					op = map[token.Token]token.Token{token.LSS: token.GTR, token.GTR: token.LSS, token.LEQ: token.GEQ, token.GEQ: token.LEQ, token.EQL: token.EQL, token.NEQ: token.NEQ}[op]
+				}
+				if x != cnt {
+					return false
+				}
+				k, isC := constInt(y)
+				if !isC {
+					return false
+				}
+				onTrue := idx == tIdx
+				switch {
+				case op == token.GTR && k >= 0, op == token.GEQ && k >= 1, op == token.NEQ && k == 0:
+					return onTrue
+				case op == token.LEQ && k >= 0, op == token.LSS && k >= 1, op == token.EQL && k == 0:
+					return !onTrue
+				}
+				return false
+			}
+			// starting points: the non-nil edge of the error test (or the read itself when the error is never nil-tested)
+			var from []*ssa.BasicBlock
+			for b := range loop {
+				iff, ok := lastInstr(b).(*ssa.If)
+				if !ok || errv == nil {
+					continue
+				}
+				x, trueIsNonNil, ok := nilTest(iff.Cond)
+				if !ok || stripConv(x) != errv {
+					continue
+				}
+				idx := 1
+				if trueIsNonNil {
+					idx = 0
+				}
+				if loop[b.Succs[idx]] {
+					from = append(from, b.Succs[idx])
+				}
+				// tested: an edge leaving the loop needs no exploration
+				if !loop[b.Succs[idx]] {
+					from = append(from, nil)
+				}
+			}
+			if len(from) == 0 {
+				for i, s := range start.Succs {
+					if loop[s] && !progress(start, i) {
+						from = append(from, s)
+					}
+				}
+			}
+			back := false
+			seen := map[*ssa.BasicBlock]bool{}
+			var stack []*ssa.BasicBlock
+			for _, f := range from {
+				if f != nil {
+					stack = append(stack, f)
+				}
+			}
+			for len(stack) > 0 && !back {
+				b := stack[len(stack)-1]
+				stack = stack[:len(stack)-1]
+				if b == start {
+					back = true
+					break
+				}
+				if seen[b] || !loop[b] {
+					continue
+				}
+				seen[b] = true
+				for i, s := range b.Succs {
+					if !progress(b, i) {
+						stack = append(stack, s)
+					}
+				}
+			}
+			name := callMethodName(c)
+			if name == "" && c.Call.StaticCallee() != nil {
+				name = c.Call.StaticCallee().Name()
+			}
+			r.Check(!back, rule, fnName(fn), "read loop stops on an error without progress: "+name+" #"+ordinal(fn, c), w.relFile(c.Pos()), "every exit of the loop depends on this read",
+				"every exit of this loop depends on the results of "+name+", and after a non-nil error (io.EOF included) the loop can come back to the read without having received a byte: on a device shorter than the (possibly corrupted) length asks for, it reads (0, EOF) forever")
+		}
+	}
+	return n
 }
